@@ -17,6 +17,7 @@ STACKING_CLASSES = {'InlineBlockBox', 'InlineFlexBox', 'InlineGridBox'}
 BLOCK_LEVEL = {'BlockBox', 'BlockReplacedBox', 'TableBox', 'InlineTableBox', 'TableCaptionBox', 'FootnoteAreaBox',
                'FlexBox', 'GridBox', 'BlockLevelBox'}
 TABLE_PARTS = {'TableRowGroupBox', 'TableRowBox', 'TableCellBox'}
+REPLACED = {'ReplacedBox', 'BlockReplacedBox', 'InlineReplacedBox'}
 # context roots whose own decoration the unchanged code drops (known findings)
 LOSES_OWN = {'GridBox', 'InlineGridBox', 'GridContainerBox', 'TableBox', 'InlineTableBox', 'TableRowGroupBox',
              'TableRowBox', 'TableColumnGroupBox', 'TableColumnBox', 'LineBox'}
@@ -168,7 +169,7 @@ def expected_items(page_attrs, kids_wire, canvas, exempt=True):
     def add(node, key, role, code, base_clips):
         if hidden_by_singular(node):
             return
-        kind = 't' if role == 'text' else 'f'
+        kind = 't' if role == 'text' else ('r' if role == 'replaced' else 'f')
         items.append((key, f'{kind}:{code}:{env_string(base_clips, node, True)}'))
 
     def decoration(node, prefix, layer, order, cell_of=None, sub=0):
@@ -223,6 +224,8 @@ def expected_items(page_attrs, kids_wire, canvas, exempt=True):
             decoration(node, prefix, 7, node.vid)
         if node.kind == 'TextBox' and a['visible']:
             add(node, prefix + ((7, 0, node.vid, 0, 2),), 'text', a['color'], 0)
+        if node.kind in REPLACED and a['visible']:
+            add(node, prefix + ((7, 0, node.vid, 0, 3),), 'replaced', 0, 0)
         if isinstance(a['outline'], int) and a['visible']:
             if node is not unit and not unit.a['overflowVisible']:
                 # painted at point 10 of the unit, outside the unit root's own overflow clip (known finding)
@@ -483,3 +486,242 @@ def contexts_violation(page_attrs, kids_wire, impl):
         if vid not in expected_place:
             problems.append(f'box {vid} creates a context but CSS 2.1 9.9.1 gives no reason')
     return '; '.join(problems[:4]) or None
+
+
+# ---------------------------------------------------------------------------------------------------
+# geometry clauses: "painted at the rectangle and radii CSS prescribes (background-clip, border widths),
+# clipped by overflow", "text at its box's baseline origin, at its font size" — stated from the laid-out
+# boxes with css-backgrounds-3 formulas written here, independently of the Lean model.
+
+def spec_rounded(box, insets):
+    """(x, y, w, h, radii…) of the box's border box moved in by `insets` = (top, right, bottom, left):
+    inner radius = max(0, outer - inset) per corner and axis, then corner-overlap scaling."""
+    it, ir, ib, il = (Fraction(v) for v in insets)
+    x = Fraction(box.position_x) + Fraction(box.margin_left) + il
+    y = Fraction(box.position_y) + Fraction(box.margin_top) + it
+    border_w = sum(Fraction(getattr(box, n)) for n in (
+        'width', 'padding_left', 'padding_right', 'border_left_width', 'border_right_width'))
+    border_h = sum(Fraction(getattr(box, n)) for n in (
+        'height', 'padding_top', 'padding_bottom', 'border_top_width', 'border_bottom_width'))
+    w, h = border_w - il - ir, border_h - it - ib
+    per_corner = {'top_left': (il, it), 'top_right': (ir, it), 'bottom_right': (ir, ib), 'bottom_left': (il, ib)}
+    inner = {}
+    for corner, (ix, iy) in per_corner.items():
+        rx, ry = (Fraction(v) for v in getattr(box, f'border_{corner}_radius'))
+        inner[corner] = (max(Fraction(0), rx - ix), max(Fraction(0), ry - iy))
+    ratio = Fraction(1)
+    for extent, total in ((w, inner['top_left'][0] + inner['top_right'][0]),
+                          (w, inner['bottom_left'][0] + inner['bottom_right'][0]),
+                          (h, inner['top_left'][1] + inner['bottom_left'][1]),
+                          (h, inner['top_right'][1] + inner['bottom_right'][1])):
+        if total > 0:
+            ratio = min(ratio, extent / total)
+    return x, y, w, h, [tuple(v * ratio for v in inner[c]) for c in (
+        'top_left', 'top_right', 'bottom_right', 'bottom_left')]
+
+
+def spec_insets(box, which):
+    bt, br, bb, bl = (Fraction(getattr(box, f'border_{s}_width')) for s in ('top', 'right', 'bottom', 'left'))
+    if which == 'border-box':
+        return (0, 0, 0, 0)
+    if which == 'padding-box':
+        return (bt, br, bb, bl)
+    return (bt + Fraction(box.padding_top), br + Fraction(box.padding_right),
+            bb + Fraction(box.padding_bottom), bl + Fraction(box.padding_left))
+
+
+def spec_path(rounded):
+    from harness.c17_scene import show_dec as d
+    x, y, w, h, (tl, tr, br, bl) = rounded
+    if all(0 in corner for corner in (tl, tr, br, bl)):
+        return f're({d(x)},{d(y)},{d(w)},{d(h)})'
+    r = Fraction(45, 100)
+    return (f'm({d(x + tl[0])},{d(y)})l({d(x + w - tr[0])},{d(y)})'
+            f'c({d(x + w - tr[0] * r)},{d(y)},{d(x + w)},{d(y + tr[1] * r)},{d(x + w)},{d(y + tr[1])})'
+            f'l({d(x + w)},{d(y + h - br[1])})'
+            f'c({d(x + w)},{d(y + h - br[1] * r)},{d(x + w - br[0] * r)},{d(y + h)},{d(x + w - br[0])},{d(y + h)})'
+            f'l({d(x + bl[0])},{d(y + h)})'
+            f'c({d(x + bl[0] * r)},{d(y + h)},{d(x)},{d(y + h - bl[1] * r)},{d(x)},{d(y + h - bl[1])})'
+            f'l({d(x)},{d(y + tl[1])})'
+            f'c({d(x)},{d(y + tl[1] * r)},{d(x + tl[0] * r)},{d(y)},{d(x + tl[0])},{d(y)})')
+
+
+def close(a, b):
+    """Equal up to 1e-4 on every number."""
+    from harness.c17_scene import snap
+    return snap(a, b)[0] == b
+
+
+def geometry_violation(page_box, events):
+    """`events` = geometric display list (list of tokens) of the page; boxes must be tagged (`_vid`).
+    Only ordinary boxes (no table parts), four-sided borders, no outlines: what the geometry scenes contain.
+    Every painted fill / text show must be at the rectangle, rounded box or origin CSS prescribes for one of
+    the boxes of its colour, inside that box's background-clip box and its overflow ancestors' padding boxes."""
+    from harness.c17_scene import TABLE_PART_NAMES, bg_of, color_code, show_dec
+    from weasyprint.draw.color import get_color
+    from weasyprint.formatting_structure import boxes
+    want_bg, want_border, want_text = {}, {}, {}
+
+    def walk(box, clip_ancestors):
+        box = getattr(box, '_box', box)
+        name = type(box).__name__
+        if name not in TABLE_PART_NAMES and not isinstance(box, boxes.PageBox):
+            code = bg_of(box)
+            if isinstance(code, int):
+                which = box.style['background_clip'][0]
+                area = spec_rounded(box, spec_insets(box, which))
+                rect = f're({show_dec(area[0])},{show_dec(area[1])},{show_dec(area[2])},{show_dec(area[3])})'
+                want_bg.setdefault(str(code), []).append(
+                    (box._vid, which, rect, spec_path(area), list(clip_ancestors)))
+            widths = [getattr(box, f'border_{s}_width', 0) for s in ('top', 'right', 'bottom', 'left')]
+            if all(widths) and box.style['visibility'] == 'visible':
+                code = color_code(get_color(box.style, 'border_top_color'))
+                path = (spec_path(spec_rounded(box, spec_insets(box, 'padding-box'))) + '+' +
+                        spec_path(spec_rounded(box, (0, 0, 0, 0))))
+                want_border.setdefault(str(code), []).append((box._vid, widths, path))
+            if isinstance(box, boxes.TextBox) and box.style['visibility'] == 'visible':
+                code = color_code(box.style['color'])
+                want_text.setdefault(str(code), []).append((box._vid, box.text, (
+                    f'tm({show_dec(Fraction(box.position_x))},'
+                    f'{show_dec(Fraction(box.position_y) + Fraction(box.baseline))},'
+                    f'{show_dec(Fraction(box.style["font_size"]))})'), list(clip_ancestors)))
+        inner = list(clip_ancestors)
+        if (box.style['overflow'] != 'visible' and not isinstance(box, boxes.PageBox)
+                and name not in TABLE_PART_NAMES):
+            inner.append(spec_path(spec_rounded(box, spec_insets(box, 'padding-box'))))
+        for child in getattr(box, 'children', ()):
+            walk(child, inner)
+
+    walk(page_box, [])
+    page_codes = set()
+    for attr in ('background', 'canvas_background'):
+        bg = getattr(page_box, attr, None)
+        if bg is not None and bg.color.alpha > 0:
+            page_codes.add(str(color_code(bg.color)))
+    for token in events:
+        kind, color, alphas, transforms, clips, geom = token.split(':', 5)
+        clips = clips.split('|') if clips else []
+        if kind == 't':
+            cands = want_text.get(color, [])
+            if cands and not any(close(geom, tm) and all(any(close(c, w) for c in clips) for w in anc)
+                                 for _, _, tm, anc in cands):
+                vid, text, tm, anc = cands[0]
+                return (f'text of colour {color} is shown at {geom} with clip stack {clips}; the text boxes of that '
+                        f'colour have baseline origin / font size {[c[2] for c in cands][:3]} (box {vid} {text!r}) '
+                        f'inside the overflow clips {anc}')
+            continue
+        if color in page_codes:
+            continue
+        if '+' in geom or 'm(' in geom:
+            cands = want_border.get(color, [])
+            def same_paths(got, want):
+                # even-odd fill of two subpaths: their order is immaterial
+                g, w = got.split('+'), want.split('+')
+                return len(g) == len(w) == 2 and ((close(g[0], w[0]) and close(g[1], w[1])) or
+                                                  (close(g[0], w[1]) and close(g[1], w[0])))
+            if cands and not any(same_paths(geom, path) for _, _, path in cands):
+                vid, widths, path = cands[0]
+                return (f'border of colour {color} is painted as {geom}; box {vid} (widths {widths}): inner edge = '
+                        f'padding box with radii max(0, r - width), outer edge = border box: {path}')
+            continue
+        cands = want_bg.get(color, [])
+        if not cands:
+            continue
+        ok = False
+        for vid, which, rect, clip_path, anc in cands:
+            if (close(geom, rect) and len(clips) >= 2 and close(clips[-2], clip_path) and close(clips[-1], rect)
+                    and all(any(close(c, w) for c in clips) for w in anc)):
+                ok = True
+                break
+        if not ok:
+            vid, which, rect, clip_path, anc = cands[0]
+            return (f'background of colour {color} is painted in {geom} inside the clips {clips}; box {vid} '
+                    f'(background-clip {which}) prescribes {rect} inside its {which} {clip_path} and the overflow '
+                    f'clips {anc}')
+    return None
+
+
+# ---------------------------------------------------------------------------------------------------
+# which branches of the models a page exercises (evidence: histogram + branches never hit)
+
+ALL_BRANCHES = [
+    'd:placeholder', 'd:real', 'd:fake', 'd:float', 'd:atomic', 'd:block', 'd:cell', 'd:parent-other', 'd:leaf',
+    'p:singular', 'p:point2', 'p:point6-inline-root', 'p:root-without-decoration', 'p:overflow-clip',
+    'p:viewport-clip', 'p:clip-property', 'p:opacity-group', 'p:transform', 'p:table', 'p:table-collapse',
+    'p:cell-hidden', 'p:column-backgrounds', 'p:replaced-block', 'p:replaced-inline', 'p:text', 'p:text-hidden',
+    'p:border-4', 'p:border-partial', 'p:border-hidden', 'p:outline', 'p:page-background', 'p:canvas-background',
+    'p:page-border', 'p:point7-lines', 'p:neg-z', 'p:pos-z', 'p:zero-z']
+POINT2 = {'BlockBox', 'InlineBlockBox', 'ReplacedBox', 'BlockReplacedBox', 'InlineReplacedBox', 'TableCellBox',
+          'TableCaptionBox', 'MarginBox', 'FootnoteAreaBox', 'FlexContainerBox', 'FlexBox', 'InlineFlexBox'}
+
+
+def branch_tags(page_attrs, kids_wire, canvas):
+    page = dict(zip(SLOTS, page_attrs))
+    tags = set()
+    if isinstance(page['bg'], int):
+        tags.add('p:page-background')
+    if isinstance(canvas, int):
+        tags.add('p:canvas-background')
+    if isinstance(page['border'], int):
+        tags.add('p:page-border')
+
+    def walk(wire, is_page_child):
+        if wire[0] == 'P':
+            tags.add('d:placeholder')
+            return walk(wire[1], is_page_child)
+        a = dict(zip(SLOTS, wire[1]))
+        node = N(wire[1], [], None)
+        unit = classify(node, is_page_child)
+        kind = a['kind']
+        if unit:
+            tags.add(f'd:{unit}')
+            z = a['z'] if a['z'] != 'auto' else 0
+            tags.add('p:neg-z' if z < 0 else 'p:pos-z' if z > 0 else 'p:zero-z')
+            if a['matrix'] == 'sing':
+                tags.add('p:singular')
+            tags.add('p:point2' if kind in POINT2 else
+                     'p:point6-inline-root' if kind == 'InlineBox' else 'p:root-without-decoration')
+            if not a['overflowVisible']:
+                tags.add('p:overflow-clip')
+            if a['isRoot'] and not page['overflowVisible']:
+                tags.add('p:viewport-clip')
+            if a['absPos'] and a['clipProp']:
+                tags.add('p:clip-property')
+            if a['opacity'] < 1:
+                tags.add('p:opacity-group')
+            if isinstance(a['matrix'], int):
+                tags.add('p:transform')
+        elif wire[0] == 'L':
+            tags.add('d:leaf')
+        elif kind in BLOCK_LEVEL:
+            tags.add('d:block')
+        elif kind == 'TableCellBox':
+            tags.add('d:cell')
+            if a['cellEmpty'] and not a['emptyCellsShow']:
+                tags.add('p:cell-hidden')
+        else:
+            tags.add('d:parent-other')
+        if kind in ('TableBox', 'InlineTableBox'):
+            tags.add('p:table-collapse' if a['collapse'] else 'p:table')
+            if a['colGroups']:
+                tags.add('p:column-backgrounds')
+        if kind == 'BlockReplacedBox':
+            tags.add('p:replaced-block')
+        if kind == 'InlineReplacedBox':
+            tags.add('p:replaced-inline')
+        if kind == 'TextBox':
+            tags.add('p:text' if a['visible'] else 'p:text-hidden')
+        if kind == 'LineBox':
+            tags.add('p:point7-lines')
+        if isinstance(a['border'], int):
+            tags.add('p:border-hidden' if not a['visible'] else
+                     'p:border-4' if a['borderSides'] == 4 else 'p:border-partial')
+        if isinstance(a['outline'], int):
+            tags.add('p:outline')
+        if wire[0] == 'N':
+            for kid in wire[2]:
+                walk(kid, False)
+
+    for kid in kids_wire:
+        walk(kid, True)
+    return sorted(tags)
